@@ -145,6 +145,38 @@ func solveOb(in *sym.Interp, ob *sym.Obligation, extra []*smt.Term, timeout, gra
 	}
 	q := &smt.Query{Name: name, Asserts: all, Values: vals, Timeout: timeout, Both: true, Grace: grace}
 	in.WithWorker(func(w *smt.Worker) { ur.Res = w.Check(q) })
+	if ur.Res.Status == smt.Unknown {
+		// Relaxation: drop every conjunct that mentions a variable introduced by
+		// a relational library model (fresh, named "...!n"). Dropping conjuncts
+		// only weakens the formula, so an unsat answer carries over.
+		var keep []*smt.Term
+		flat := full
+		parts := []*smt.Term{flat}
+		if flat.Op == "and" {
+			parts = flat.Args
+		}
+		for _, p := range parts {
+			fresh := false
+			smt.Walk(p, func(x *smt.Term) {
+				if x.Op == "var" && strings.Contains(x.Name, "!") {
+					fresh = true
+				}
+			})
+			if !fresh {
+				keep = append(keep, p)
+			}
+		}
+		if len(keep) > 0 && len(keep) < len(parts) {
+			rel := smt.And(keep...)
+			rq := &smt.Query{Name: name + "-relaxed", Asserts: append([]*smt.Term{rel}, sym.SideConditions([]*smt.Term{rel})...), Timeout: timeout, Both: true, Grace: grace}
+			var rr smt.Result
+			in.WithWorker(func(w *smt.Worker) { rr = w.Check(rq) })
+			if rr.Status == smt.Unsat {
+				rr.Note = "unsat of the relaxed formula (conjuncts over model-introduced variables dropped); " + rr.Note
+				ur.Res = rr
+			}
+		}
+	}
 	if ur.Res.Status == smt.Sat {
 		ur.Notes = map[string]smt.ModelValue{}
 		ur.UFVals = map[string]smt.ModelValue{}
